@@ -31,6 +31,10 @@ pub fn bin(b: Build) -> String {
 pub struct Cmd { pub args: Vec<String>, pub env: Vec<(String, String)>, pub stdin: Option<Vec<u8>>, pub timeout_s: u64,
     /// standard input redirected from this (regular) file instead of a pipe
     pub stdin_file: Option<String>,
+    /// the file given as standard input is already positioned at this offset (a parent that consumed a preamble)
+    pub stdin_offset: u64,
+    /// environment variables whose name or value need not be text
+    pub env_raw: Vec<(Vec<u8>, Vec<u8>)>,
     /// a named pipe created at this path before the spawn and fed with these bytes once the child opens it
     pub fifo: Option<(String, Vec<u8>)>,
     /// where standard output goes: a pipe (default), a regular file, or a pseudo-terminal (the program then sees a tty)
@@ -38,18 +42,20 @@ pub struct Cmd { pub args: Vec<String>, pub env: Vec<(String, String)>, pub stdi
 #[derive(Clone, Copy, Debug, Default, PartialEq, Eq)]
 pub enum StdoutTo { #[default] Pipe, File, Terminal }
 impl Cmd {
-    pub fn new(args: &[&str]) -> Cmd { Cmd { args: args.iter().map(|s| s.to_string()).collect(), env: vec![], stdin: None, timeout_s: 20, stdin_file: None, fifo: None, stdout_to: StdoutTo::Pipe } }
+    pub fn new(args: &[&str]) -> Cmd { Cmd { args: args.iter().map(|s| s.to_string()).collect(), env: vec![], stdin: None, timeout_s: 20, stdin_file: None, stdin_offset: 0, env_raw: vec![], fifo: None, stdout_to: StdoutTo::Pipe } }
     pub fn arg(mut self, a: &str) -> Cmd { self.args.push(a.into()); self }
     pub fn env(mut self, k: &str, v: &str) -> Cmd { self.env.push((k.into(), v.into())); self }
     pub fn stdin(mut self, b: &[u8]) -> Cmd { self.stdin = Some(b.to_vec()); self }
     pub fn timeout(mut self, s: u64) -> Cmd { self.timeout_s = s; self }
     pub fn stdin_from_file(mut self, path: &str) -> Cmd { self.stdin_file = Some(path.into()); self }
+    pub fn stdin_from_file_at(mut self, path: &str, offset: u64) -> Cmd { self.stdin_file = Some(path.into()); self.stdin_offset = offset; self }
+    pub fn env_raw(mut self, k: &[u8], v: &[u8]) -> Cmd { self.env_raw.push((k.to_vec(), v.to_vec())); self }
     pub fn stdout_to(mut self, t: StdoutTo) -> Cmd { self.stdout_to = t; self }
     pub fn fifo(mut self, path: &str, data: &[u8]) -> Cmd { self.fifo = Some((path.into(), data.to_vec())); self }
     pub fn run(&self, b: Build) -> Run {
         let t0 = Instant::now();
         let mut c = Command::new(bin(b));
-        c.args(&self.args).env_clear().stdout(Stdio::piped()).stderr(Stdio::piped()).stdin(if let Some(f) = &self.stdin_file { Stdio::from(std::fs::File::open(f).expect("open stdin file")) } else if self.stdin.is_some() { Stdio::piped() } else { Stdio::null() });
+        c.args(&self.args).env_clear().stdout(Stdio::piped()).stderr(Stdio::piped()).stdin(if let Some(f) = &self.stdin_file { Stdio::from({ use std::io::Seek; let mut h = std::fs::File::open(f).expect("open stdin file"); if self.stdin_offset > 0 { h.seek(std::io::SeekFrom::Start(self.stdin_offset)).expect("seek stdin file"); } h }) } else if self.stdin.is_some() { Stdio::piped() } else { Stdio::null() });
         // named pipe: created before the spawn, fed by a thread that opens it without blocking (the child may never open it)
         let done = std::sync::Arc::new(std::sync::atomic::AtomicBool::new(false));
         let feeder = self.fifo.clone().map(|(path, data)| {
@@ -62,6 +68,7 @@ impl Cmd {
                 let mut off = 0; while off < data.len() { match f.write(&data[off..]) { Ok(n) => off += n, Err(e) if e.kind() == std::io::ErrorKind::WouldBlock => { if done.load(Ordering::Relaxed) { return; } std::thread::sleep(Duration::from_millis(1)); } Err(_) => return } } })
         });
         for (k, v) in &self.env { c.env(k, v); }
+        for (k, v) in &self.env_raw { use std::os::unix::ffi::OsStringExt; c.env(std::ffi::OsString::from_vec(k.clone()), std::ffi::OsString::from_vec(v.clone())); }
         // the child must never outlive the harness (a watchdog exit or a killed harness would otherwise leave endless
         // vanity searches behind): ask the kernel to SIGKILL it when its parent dies
         unsafe { use std::os::unix::process::CommandExt; c.pre_exec(|| { extern "C" { fn prctl(option: i32, arg2: u64, arg3: u64, arg4: u64, arg5: u64) -> i32; } prctl(1 /* PR_SET_PDEATHSIG */, 9 /* SIGKILL */, 0, 0, 0); Ok(()) }); }
